@@ -61,4 +61,4 @@ package resource
 //@   option locks caller
 //@   option only guard lock call
 //@   replay CollectionGenIDRace()
-//@   requires recv != nil && held(recv.mu)
+//@   requires recv != nil && held(recv.mu) && !held(recv.rngMu)
